@@ -226,6 +226,9 @@ pub enum IgSpec {
     /// indices into parameters/pcsaft/gc_substances.json, built with
     /// `Joback::from_segments` from parameters/ideal_gas/joback1987.json
     JobackSegments(Vec<usize>),
+    /// as JobackSegments, but with a perturbed copy of the group table (salt): every group gets a
+    /// non-zero fourth-order coefficient e (all shipped groups have e = 0) and rescaled a..d
+    JobackSegmentsPerturbed(Vec<usize>, u32),
     JobackRandom(Vec<[f64; 5]>),
 }
 
@@ -238,18 +241,19 @@ impl IgSpec {
         match self {
             IgSpec::DipprShipped(v) => v.len(),
             IgSpec::DipprRandom(v) => v.len(),
-            IgSpec::JobackSegments(v) => v.len(),
+            IgSpec::JobackSegments(v) | IgSpec::JobackSegmentsPerturbed(v, _) => v.len(),
             IgSpec::JobackRandom(v) => v.len(),
         }
     }
     fn is_joback(&self) -> bool {
-        matches!(self, IgSpec::JobackSegments(_) | IgSpec::JobackRandom(_))
+        matches!(self, IgSpec::JobackSegments(_) | IgSpec::JobackSegmentsPerturbed(..) | IgSpec::JobackRandom(_))
     }
     fn kind(&self) -> &'static str {
         match self {
             IgSpec::DipprShipped(_) => "ig:dippr-shipped(poling2000)",
             IgSpec::DipprRandom(_) => "ig:dippr-random",
             IgSpec::JobackSegments(_) => "ig:joback-segments(joback1987)",
+            IgSpec::JobackSegmentsPerturbed(..) => "ig:joback-segments(perturbed table, e != 0)",
             IgSpec::JobackRandom(_) => "ig:joback-random",
         }
     }
@@ -258,6 +262,7 @@ impl IgSpec {
             IgSpec::DipprShipped(v) => IgSpec::DipprShipped(vec![v[i]]),
             IgSpec::DipprRandom(v) => IgSpec::DipprRandom(vec![v[i].clone()]),
             IgSpec::JobackSegments(v) => IgSpec::JobackSegments(vec![v[i]]),
+            IgSpec::JobackSegmentsPerturbed(v, salt) => IgSpec::JobackSegmentsPerturbed(vec![v[i]], *salt),
             IgSpec::JobackRandom(v) => IgSpec::JobackRandom(vec![v[i]]),
         }
     }
@@ -276,13 +281,13 @@ impl IgSpec {
                     .collect::<Result<Vec<_>, _>>()?;
                 Ok(IdealGasModel::Dippr(Arc::new(Dippr::from_records(recs, None).map_err(|e| e.to_string())?)))
             }
-            IgSpec::JobackSegments(idx) => {
+            IgSpec::JobackSegments(idx) | IgSpec::JobackSegmentsPerturbed(idx, _) => {
                 let chem: Vec<ChemicalRecord> = idx
                     .iter()
                     .map(|&i| serde_json::from_value(POOLS.gc_substances[i % POOLS.gc_substances.len()].clone()).map_err(|e| e.to_string()))
                     .collect::<Result<_, _>>()?;
-                let segs: Vec<SegmentRecord<JobackRecord>> = POOLS
-                    .joback_segments
+                let segs: Vec<SegmentRecord<JobackRecord>> = self
+                    .joback_table()
                     .iter()
                     .map(|v| serde_json::from_value(v.clone()).map_err(|e| e.to_string()))
                     .collect::<Result<_, _>>()?;
@@ -292,6 +297,30 @@ impl IgSpec {
             }
             IgSpec::JobackRandom(cs) => joback_model(cs),
         }
+    }
+    /// the group table of a group-contribution Joback spec (shipped, or perturbed by the salt)
+    fn joback_table(&self) -> Vec<Value> {
+        let mut t: Vec<Value> = POOLS.joback_segments.clone();
+        if let IgSpec::JobackSegmentsPerturbed(_, salt) = self {
+            for (k, r) in t.iter_mut().enumerate() {
+                // splitmix-style hash of (salt, group index): deterministic, no RNG of its own
+                let mut z = (*salt as u64) << 32 | k as u64;
+                let mut u = || {
+                    z = z.wrapping_add(0x9E3779B97F4A7C15);
+                    let mut x = z;
+                    x = (x ^ (x >> 30)).wrapping_mul(0xBF58476D1CE4E5B9);
+                    x = (x ^ (x >> 27)).wrapping_mul(0x94D049BB133111EB);
+                    ((x ^ (x >> 31)) >> 11) as f64 / (1u64 << 53) as f64
+                };
+                let m = &mut r["model_record"];
+                for key in ["a", "b", "c", "d"] {
+                    let v = m[key].as_f64().unwrap_or(0.0);
+                    m[key] = json!(v * (0.9 + 0.2 * u()));
+                }
+                m["e"] = json!((2.0 * u() - 1.0) * 2e-11);
+            }
+        }
+        t
     }
     /// the correlations the model was parameterised with, read by the harness from the JSON
     /// files / the case (never from the library objects)
@@ -313,17 +342,17 @@ impl IgSpec {
                 })
                 .collect(),
             IgSpec::DipprRandom(cs) => cs.clone(),
-            IgSpec::JobackSegments(idx) => idx
+            IgSpec::JobackSegments(idx) | IgSpec::JobackSegmentsPerturbed(idx, _) => idx
                 .iter()
                 .map(|&i| {
+                    let table = self.joback_table();
                     // Joback & Reid 1987: c_p = sum n_k a_k - 37.93 + (sum n_k b_k + 0.21) T
                     //   + (sum n_k c_k - 3.91e-4) T^2 + (sum n_k d_k + 2.06e-7) T^3
                     let mut c = [-37.93, 0.21, -3.91e-4, 2.06e-7, 0.0];
                     let sub = &POOLS.gc_substances[i % POOLS.gc_substances.len()];
                     for s in sub["segments"].as_array().unwrap() {
                         let name = s.as_str().unwrap();
-                        let seg = POOLS
-                            .joback_segments
+                        let seg = table
                             .iter()
                             .find(|r| r["identifier"].as_str() == Some(name))
                             .unwrap_or_else(|| panic!("segment {name} not in joback1987.json"));
@@ -402,7 +431,14 @@ fn gen_ig(g: &mut Gen, n: usize) -> IgSpec {
     match g.index(4) {
         0 => IgSpec::DipprShipped((0..n).map(|_| g.index(POOLS.dippr.len())).collect()),
         1 => IgSpec::DipprRandom((0..n).map(|_| gen_dippr(g)).collect()),
-        2 => IgSpec::JobackSegments((0..n).map(|_| g.index(POOLS.gc_substances.len())).collect()),
+        2 => {
+            let idx = (0..n).map(|_| g.index(POOLS.gc_substances.len())).collect();
+            if g.bool(0.5) {
+                IgSpec::JobackSegmentsPerturbed(idx, g.index(1_000_000) as u32)
+            } else {
+                IgSpec::JobackSegments(idx)
+            }
+        }
         _ => IgSpec::JobackRandom((0..n).map(|_| gen_joback(g)).collect()),
     }
 }
